@@ -63,28 +63,47 @@ theorem gap_len (m : List (List Res)) (fi fj ti tj : Nat) :
   unfold gap
   exact difference_len _ _ _
 
-/-- what is known about the script built so far: it accounts for `a` elements of both lists, and every kept
-element before `a` is paired with itself -/
-def KeptSoFar (kept : Nat → Bool) (a : Nat) (es : List Ed) : Prop :=
-  lenX es = a ∧ lenY es = a ∧ ∀ i, i < a → kept i = true → (fates es 0)[i]? = some (.same i)
+/-- the anchoring finds cell `k` of row `i` when nothing before it (from `j` on) is equal -/
+theorem findEqual_at (m : List (List Res)) (i k mlen : Nat) (hk : k < mlen)
+    (he : (lookup m (i : Int) (k : Int)).equal = true) : ∀ (fuel j : Nat), j ≤ k → k - j < fuel →
+    (∀ t, j ≤ t → t < k → (lookup m (i : Int) (t : Int)).equal = false) → findEqual m i mlen fuel j = some k
+  | 0, j, _, hf, _ => by omega
+  | fuel + 1, j, hj, hf, hno => by
+    rw [findEqual]
+    have hjm : j < mlen := by omega
+    simp only [hjm, ↓reduceIte]
+    by_cases hjk : j = k
+    · subst hjk
+      simp [he]
+    · have := hno j (Nat.le_refl _) (by omega)
+      simp only [this, Bool.false_eq_true, ↓reduceIte]
+      exact findEqual_at m i k mlen hk he fuel (j + 1) (by omega) (by omega) (fun t ht ht' => hno t (by omega) ht')
 
-theorem KeptSoFar.extend {kept : Nat → Bool} {a : Nat} {es : List Ed} (h : KeptSoFar kept a es) (g : List Ed) :
-    ∀ i, i < a → kept i = true → (fates (es ++ g) 0)[i]? = some (.same i) := by
-  intro i hi hk
+/-- what is known about the script built so far: it accounts for `a` elements of the old list and `b` of the new one, and
+every anchored element before `a` is paired with its partner -/
+def AnchoredSoFar (σ : Nat → Option Nat) (a b : Nat) (es : List Ed) : Prop :=
+  lenX es = a ∧ lenY es = b ∧ ∀ i k, i < a → σ i = some k → (fates es 0)[i]? = some (.same k)
+
+theorem AnchoredSoFar.extend {σ : Nat → Option Nat} {a b : Nat} {es : List Ed} (h : AnchoredSoFar σ a b es) (g : List Ed) :
+    ∀ i k, i < a → σ i = some k → (fates (es ++ g) 0)[i]? = some (.same k) := by
+  intro i k hi hk
   rw [fates_append, List.getElem?_append_left (by rw [fates_length, h.1]; exact hi)]
-  exact h.2.2 i hi hk
+  exact h.2.2 i k hi hk
 
-theorem alignLoop_keeps (m : List (List Res)) (n : Nat) (kept : Nat → Bool)
-    (hk : ∀ i, i < n → kept i = true → (lookup m (i : Int) (i : Int)).equal = true)
-    (hnk : ∀ i, i < n → kept i = false → (lookup m (i : Int) (i : Int)).equal = false)
-    (hoff : ∀ i k, i < n → k < n → i ≠ k → (lookup m (i : Int) (k : Int)).equal = false)
-    (hrun : ∀ i a, i < n → kept i = true → a ≤ i → (∀ t, a ≤ t → t < i → kept t = false) → i - a < lookahead) :
-    ∀ (fuel i a : Nat) (es : List Ed) (ex : Bool), a ≤ i → i ≤ n → n + 1 ≤ fuel + i →
-      (∀ t, a ≤ t → t < i → kept t = false) → KeptSoFar kept a es →
-      ∀ i', i' < n → kept i' = true → (fates (alignLoop m n n fuel i a a a es ex).1 0)[i']? = some (.same i')
-  | 0, i, a, es, ex, hai, hin, hfuel, hrunk, hes => by omega
-  | fuel + 1, i, a, es, ex, hai, hin, hfuel, hrunk, hes => by
-    intro i' hi' hk'
+/-- the loop of `alignSlices` when the only equal cells of the comparison matrix are those of a strictly increasing partial
+pairing `σ` of old with new elements -/
+theorem alignLoop_anchors (m : List (List Res)) (n mlen : Nat) (σ : Nat → Option Nat)
+    (hin : ∀ i k, i < n → σ i = some k → k < mlen ∧ (lookup m (i : Int) (k : Int)).equal = true)
+    (hno : ∀ i k, i < n → k < mlen → σ i ≠ some k → (lookup m (i : Int) (k : Int)).equal = false)
+    (hmono : ∀ i i' k k', i < i' → i' < n → σ i = some k → σ i' = some k' → k < k')
+    (hrun : ∀ i k b, i < n → σ i = some k → b ≤ k → (∀ i' k', i' < i → σ i' = some k' → k' < b) → k - b < lookahead) :
+    ∀ (fuel i a b : Nat) (es : List Ed) (ex : Bool), a ≤ i → i ≤ n → n + 1 ≤ fuel + i →
+      (∀ t, a ≤ t → t < i → σ t = none) → (∀ i' k', i' < i → σ i' = some k' → k' < b) →
+      (∀ i2 k2, i ≤ i2 → i2 < n → σ i2 = some k2 → b ≤ k2) → AnchoredSoFar σ a b es →
+      ∀ i' k', i' < n → σ i' = some k' → (fates (alignLoop m n mlen fuel i b a b es ex).1 0)[i']? = some (.same k')
+  | 0, i, a, b, es, ex, hai, hi_n, hfuel, hnone, hbelow, habove, hes => by omega
+  | fuel + 1, i, a, b, es, ex, hai, hi_n, hfuel, hnone, hbelow, habove, hes => by
+    intro i' k' hi' hk'
     rw [alignLoop]
     by_cases hge : i ≥ n
     · simp only [hge, ↓reduceIte]
@@ -93,64 +112,118 @@ theorem alignLoop_keeps (m : List (List Res)) (n : Nat) (kept : Nat → Bool)
       have hlt : i' < a := by
         by_cases h : i' < a
         · exact h
-        · have := hrunk i' (by omega) hi'
-          simp [this] at hk'
-      exact hes.extend _ i' hlt hk'
+        · have := hnone i' (by omega) hi'
+          rw [this] at hk'; cases hk'
+      exact hes.extend _ i' k' hlt hk'
     · simp only [hge, ↓reduceIte]
       have hi : i < n := by omega
-      cases hki : kept i with
-      | true =>
-        have hfe := findEqual_diag m i n hi (hk i hi hki) lookahead a hai (hrun i a hi hki hai hrunk)
-          (fun k hk1 hk2 => hoff i k hi (by omega) (by omega))
+      cases hσ : σ i with
+      | some k =>
+        obtain ⟨hkm, heq⟩ := hin i k hi hσ
+        have hbk : b ≤ k := habove i k (Nat.le_refl _) hi hσ
+        have hfe := findEqual_at m i k mlen hkm heq lookahead b hbk (hrun i k b hi hσ hbk hbelow)
+          (fun t ht1 ht2 => hno i t hi (by omega) (by rw [hσ]; intro h; cases h; omega))
         rw [hfe]
         simp only []
-        have hg := gap_len m a i a i
-        generalize gap m a i a i = gp at hg
+        have hg := gap_len m a i b k
+        generalize gap m a i b k = gp at hg
         obtain ⟨g, x⟩ := gp
         simp only [] at hg ⊢
-        apply alignLoop_keeps m n kept hk hnk hoff hrun fuel (i + 1) (i + 1) _ _ (Nat.le_refl _) (by omega) (by omega)
-          (fun t h1 h2 => by omega) _ i' hi' hk'
+        apply alignLoop_anchors m n mlen σ hin hno hmono hrun fuel (i + 1) (i + 1) (k + 1) _ _ (Nat.le_refl _) (by omega) (by omega)
+          (fun t h1 h2 => by omega)
+          (fun i2 k2 h1 h2 => by
+            by_cases h : i2 = i
+            · subst h; rw [hσ] at h2; cases h2; omega
+            · have := hmono i2 i k2 k (by omega) hi h2 hσ; omega)
+          (fun i2 k2 h1 h2 h3 => by
+            have := hmono i i2 k k2 (by omega) h2 hσ h3; omega)
+          _ i' k' hi' hk'
         refine ⟨?_, ?_, ?_⟩
         · rw [lenX_append, lenX_append, hes.1, hg.1]; simp [lenX]; omega
         · rw [lenY_append, lenY_append, hes.2.1, hg.2]; simp [lenY]; omega
-        · intro t ht hkt
+        · intro t kt ht hkt
           by_cases hta : t < a
           · rw [List.append_assoc]
-            exact hes.extend _ t hta hkt
+            exact hes.extend _ t kt hta hkt
           · have hti : t = i := by
               by_cases h : t = i
               · exact h
-              · have := hrunk t (by omega) (by omega)
-                simp [this] at hkt
+              · have := hnone t (by omega) (by omega)
+                rw [this] at hkt; cases hkt
             subst hti
+            rw [hσ] at hkt; cases hkt
             rw [fates_append, List.getElem?_append_right (by rw [fates_length, lenX_append, hes.1, hg.1]; omega)]
             rw [fates_length, lenX_append, hes.1, hg.1, lenY_append, hes.2.1, hg.2]
             have e1 : t - (a + (t - a)) = 0 := by omega
-            have e2 : 0 + (a + (t - a)) = t := by omega
+            have e2 : 0 + (b + (k - b)) = k := by omega
             rw [e1, e2]
             simp [fates]
-      | false =>
-        have hfn := findEqual_none m i n lookahead a (fun k hk1 hk2 => by
-          by_cases hik : i = k
-          · subst hik; exact hnk i hi hki
-          · exact hoff i k hi hk2 hik)
+      | none =>
+        have hfn := findEqual_none m i mlen lookahead b (fun k hk1 hk2 => hno i k hi hk2 (by rw [hσ]; intro h; cases h))
         rw [hfn]
         simp only []
-        exact alignLoop_keeps m n kept hk hnk hoff hrun fuel (i + 1) a es ex (by omega) (by omega) (by omega)
+        exact alignLoop_anchors m n mlen σ hin hno hmono hrun fuel (i + 1) a b es ex (by omega) (by omega) (by omega)
           (fun t h1 h2 => by
             by_cases h : t = i
-            · subst h; exact hki
-            · exact hrunk t h1 (by omega)) hes i' hi' hk'
+            · subst h; exact hσ
+            · exact hnone t h1 (by omega))
+          (fun i2 k2 h1 h2 => by
+            by_cases h : i2 = i
+            · subst h; rw [hσ] at h2; cases h2
+            · exact hbelow i2 k2 (by omega) h2)
+          (fun i2 k2 h1 h2 h3 => habove i2 k2 (by omega) h2 h3)
+          hes i' k' hi' hk'
 
-/-- **Elements that stayed as they were are paired with themselves.** -/
+/-- **Anchored elements are paired with their partners.** When the only equal cells of the comparison matrix are those of a
+strictly increasing partial pairing `σ` (no identical twins), and no more than 63 elements of the new list stand between
+the partners of two consecutive anchors, `alignSlices` gives every anchored element the fate "identical to its partner". -/
+theorem alignSlices_anchors (m : List (List Res)) (n mlen : Nat) (σ : Nat → Option Nat)
+    (hin : ∀ i k, i < n → σ i = some k → k < mlen ∧ (lookup m (i : Int) (k : Int)).equal = true)
+    (hno : ∀ i k, i < n → k < mlen → σ i ≠ some k → (lookup m (i : Int) (k : Int)).equal = false)
+    (hmono : ∀ i i' k k', i < i' → i' < n → σ i = some k → σ i' = some k' → k < k')
+    (hrun : ∀ i k b, i < n → σ i = some k → b ≤ k → (∀ i' k', i' < i → σ i' = some k' → k' < b) → k - b < lookahead) :
+    ∀ i k, i < n → σ i = some k → (fates (alignSlices m n mlen).1 0)[i]? = some (.same k) := by
+  unfold alignSlices
+  exact alignLoop_anchors m n mlen σ hin hno hmono hrun (n + 1) 0 0 0 [] false (Nat.le_refl _) (Nat.zero_le _) (by omega)
+    (fun t h1 h2 => by omega) (fun i' k' h1 => by omega) (fun _ _ _ _ _ => Nat.zero_le _) ⟨rfl, rfl, fun i k hi => by omega⟩
+
+/-- the special case of a list rewritten in place: the kept elements are anchored on the diagonal -/
 theorem alignSlices_keeps (m : List (List Res)) (n : Nat) (kept : Nat → Bool)
     (hk : ∀ i, i < n → kept i = true → (lookup m (i : Int) (i : Int)).equal = true)
     (hnk : ∀ i, i < n → kept i = false → (lookup m (i : Int) (i : Int)).equal = false)
     (hoff : ∀ i k, i < n → k < n → i ≠ k → (lookup m (i : Int) (k : Int)).equal = false)
     (hrun : ∀ i a, i < n → kept i = true → a ≤ i → (∀ t, a ≤ t → t < i → kept t = false) → i - a < lookahead) :
     ∀ i, i < n → kept i = true → (fates (alignSlices m n n).1 0)[i]? = some (.same i) := by
-  unfold alignSlices
-  exact alignLoop_keeps m n kept hk hnk hoff hrun (n + 1) 0 0 [] false (Nat.le_refl _) (Nat.zero_le _) (by omega)
-    (fun t h1 h2 => by omega) ⟨rfl, rfl, fun i hi => by omega⟩
+  intro i hi hki
+  apply alignSlices_anchors m n n (fun i => if kept i then some i else none)
+  · intro i k hi hs
+    by_cases h : kept i = true
+    · simp only [h, ↓reduceIte, Option.some.injEq] at hs
+      subst hs
+      exact ⟨hi, hk i hi h⟩
+    · simp [h] at hs
+  · intro i k hi hk' hs
+    by_cases hik : i = k
+    · subst hik
+      by_cases h : kept i = true
+      · simp [h] at hs
+      · exact hnk i hi (by simpa using h)
+    · exact hoff i k hi hk' hik
+  · intro i i' k k' hlt hi' hs hs'
+    by_cases h : kept i = true <;> by_cases h' : kept i' = true <;> simp [h, h'] at hs hs'
+    omega
+  · intro i k b hi hs hbk hbelow
+    by_cases h : kept i = true
+    · simp only [h, ↓reduceIte, Option.some.injEq] at hs
+      subst hs
+      apply hrun i b hi h hbk
+      intro t ht1 ht2
+      by_cases hkt : kept t = true
+      · have := hbelow t t ht2 (by simp [hkt])
+        omega
+      · simpa using hkt
+    · simp [h] at hs
+  · exact hi
+  · simp [hki]
 
 end Gopatch.AD
